@@ -29,7 +29,7 @@ class ShortLinkControl(BitsInterface):
         self.crc_8bit: bitarray = (
             crc_8bit[:8]
             if isinstance(crc_8bit, bitarray)
-            else int2ba(crc_8bit, length=8)
+            else int2ba(crc_8bit, length=8, endian="little")
         )
         self.ts1_activity_id: Optional[ActivityID] = ts1_activity_id
         self.ts1_address: Optional[bitarray] = ts1_address
@@ -42,7 +42,10 @@ class ShortLinkControl(BitsInterface):
             )
             self.crc_ok: bool = True
         else:
-            self.crc_ok: bool = CRC8.check(self.as_bits()[:28], ba2int(self.crc_8bit))
+            # crc_8bit holds the checksum least significant bit first, same as generated above
+            self.crc_ok: bool = self.crc_8bit == int2ba(
+                CRC8.calculate(self.as_bits()[:28]), length=8, endian="little"
+            )
 
     def __repr__(self) -> str:
         descr: str = f"[{self.slco}]"
